@@ -438,7 +438,7 @@ func CheckC12(run *evid.Run) {
 		jobs = append(jobs, func() { tryDecode(run, hb, w, hon, "root"); run.NonTrivialIf(hb.Outcome != "ipld-error", "root/"+hb.Edits) })
 	}
 	// multi-edits, sampled
-	nmulti := pick(run.Tier, 3000, 120000)
+	nmulti := pick(run.Tier, 20000, 300000)
 	reps := replacements()
 	for k := 0; k < nmulti; k++ {
 		rng := rand.New(rand.NewSource(run.Seed*48271 + int64(k)))
@@ -481,7 +481,7 @@ func CheckC12(run *evid.Run) {
 				run.NonTrivialIf(hb.Outcome != "ipld-error", "t/"+src.name+"/"+hb.Outcome)
 			})
 		}
-		nflip := pick(run.Tier, 1500, 60000)
+		nflip := pick(run.Tier, 6000, 100000)
 		for k := 0; k < nflip; k++ {
 			k := k
 			jobs = append(jobs, func() {
@@ -536,7 +536,7 @@ func CheckC12(run *evid.Run) {
 	}
 	placePool = place
 	c12PlaceFile(place)
-	total := pick(run.Tier, 240, 4000)
+	total := pick(run.Tier, 800, 10000)
 	runCases(run, "C12place", total, true, false, ChildOpts{
 		OnDeath: func(last map[string]any, tail, kind string) (string, map[string]any) {
 			return "C12/process-died-loading", det("kind", kind, "edits", last["edits"], "position", last["position"], "loader", last["loader"])
